@@ -78,8 +78,30 @@ impl Decoded {
     /// bytes dropped, retained wire bytes replaced by hand, payload / ciphertext removed.
     pub fn variants(&self) -> Vec<(&'static str, Decoded)> {
         let mut out = Vec::new();
+        // duplicate map keys in places the per-structure code does or does not police: a repeated
+        // extra label, an extra label equal to a populated typed field, a repeated key inside a
+        // map-valued parameter
+        macro_rules! dups {
+            ($m:expr, $variant:ident) => {{
+                let mut a = $m.clone();
+                a.unprotected.rest.push((coset::Label::Int(1000), Value::Null));
+                a.unprotected.rest.push((coset::Label::Int(1000), Value::Bool(true)));
+                out.push(("duplicate-extra-label", Decoded::$variant(a)));
+                let mut b = $m.clone();
+                b.unprotected.alg = Some(coset::Algorithm::Assigned(iana::Algorithm::ES256));
+                b.unprotected.rest.push((coset::Label::Int(1), Value::from(-8)));
+                out.push(("extra-label-equals-typed-field", Decoded::$variant(b)));
+                let mut c = $m.clone();
+                c.unprotected.rest.push((
+                    coset::Label::Int(-1),
+                    Value::Map(vec![(Value::from(1), Value::from(2)), (Value::from(-1), Value::from(1)), (Value::from(1), Value::from(3))]),
+                ));
+                out.push(("duplicate-key-inside-parameter-value", Decoded::$variant(c)));
+            }};
+        }
         macro_rules! prot {
             ($m:expr, $variant:ident) => {{
+                dups!($m, $variant);
                 let mut a = $m.clone();
                 a.protected.original_data = None;
                 out.push(("wire-bytes-dropped", Decoded::$variant(a)));
@@ -136,7 +158,14 @@ impl Decoded {
             }
             Decoded::Recipient(m) => prot!(m, Recipient),
             Decoded::Signature(m) => prot!(m, Signature),
-            Decoded::SuppPub(m) => prot!(m, SuppPub),
+            Decoded::SuppPub(m) => {
+                let mut a = m.clone();
+                a.protected.original_data = None;
+                out.push(("wire-bytes-dropped", Decoded::SuppPub(a)));
+                let mut b = m.clone();
+                b.protected.original_data = Some(vec![0xa1, 0x01, 0x26]);
+                out.push(("wire-bytes-set-by-hand", Decoded::SuppPub(b)));
+            }
             Decoded::Protected(p) => {
                 let mut a = p.clone();
                 a.original_data = Some(vec![0xa1, 0x01, 0x26]);
